@@ -32,6 +32,10 @@ pub struct Case {
     pub local: u16,
     pub frames: Vec<RefFrame>,
     pub chunk: u8,
+    /// session changes: before the frames with these numbers the layer is reset, as the tasks do at the start of every
+    /// session - a link reset of the previous session does not count in the next
+    #[serde(default)]
+    pub resets: Vec<usize>,
 }
 
 pub struct LinkAddrScenario;
@@ -413,6 +417,11 @@ impl Scenario for LinkAddrScenario {
             is_master,
             self_address,
             local,
+            resets: if rng.chance(1, 4) {
+                (0..rng.urange(1, 2)).map(|_| rng.urange(1, frames.len().max(2) - 1)).collect()
+            } else {
+                Vec::new()
+            },
             frames,
             chunk: rng.below(5) as u8,
         }
@@ -471,6 +480,8 @@ impl Scenario for LinkAddrScenario {
             let is_master = case.is_master;
             let self_address = case.self_address;
             let ups3 = ups2.clone();
+            let session_change = Arc::new(tokio::sync::Notify::new());
+            let session_change2 = session_change.clone();
             let task = sim.spawn("link-layer", async move {
                 let mut phys = PhysLayer::Sim(Box::new(sock));
                 let mut layer = Layer::new(
@@ -493,10 +504,18 @@ impl Scenario for LinkAddrScenario {
                 );
                 let mut payload = FramePayload::new();
                 loop {
-                    match layer
-                        .read(&mut phys, DecodeLevel::nothing(), &mut payload)
-                        .await
-                    {
+                    let res = tokio::select! {
+                        biased;
+                        _ = session_change2.notified() => {
+                            if let Some(core) = kernel::current() {
+                                core.count("fault.session_change", 1);
+                            }
+                            layer.reset();
+                            continue;
+                        }
+                        r = layer.read(&mut phys, DecodeLevel::nothing(), &mut payload) => r,
+                    };
+                    match res {
                         Ok(info) => {
                             let src = info.source.raw_value();
                             let up = match info.frame_type {
@@ -522,6 +541,11 @@ impl Scenario for LinkAddrScenario {
             };
             let mut seen_up = 0usize;
             for (i, f) in case.frames.iter().enumerate() {
+                if case.resets.contains(&i) {
+                    session_change.notify_one();
+                    sim.settle().await;
+                    station.reset = None;
+                }
                 io::chan_push(&inbox, sim.now_ms(), reflink::build_frame(f));
                 sim.settle().await;
                 let verdict = station.judge(f);
@@ -714,6 +738,10 @@ impl Scenario for LinkAddrScenario {
         outcome.count(
             "fault.rechunk",
             report.counters.get("phys_reads").copied().unwrap_or(0),
+        );
+        outcome.count(
+            "fault.session_change",
+            report.counters.get("fault.session_change").copied().unwrap_or(0),
         );
         outcome
     }
